@@ -1,4 +1,5 @@
 import dis
+import re
 import yaml
 from typing import (
     Any,
@@ -1016,6 +1017,23 @@ class SCFGIO:
         assert len(outer_graph) > 0
 
         name_gen = NameGenerator()
+        # Advance the counters past every generated name that is present in
+        # the input, such that names handed out later are fresh.
+        names = list(graph_dict["blocks"])
+        for block in graph_dict["blocks"].values():
+            names.append(block.get("variable", ""))
+            names.extend(block.get("variable_assignment", {}))
+        for name in names:
+            match = re.fullmatch(
+                r"__scfg_(.+)_var_(\d+)__|(.+)_(?:block|region)_(\d+)",
+                str(name),
+            )
+            if match:
+                kind = match.group(1) or match.group(3)
+                index = int(match.group(2) or match.group(4))
+                name_gen.kinds[kind] = max(
+                    name_gen.kinds.get(kind, 0), index + 1
+                )
         scfg = SCFGIO.make_scfg(
             graph_dict, outer_graph, block_ref_dict, name_gen
         )
